@@ -633,10 +633,15 @@ Definition wf_C50 (i : val) : bool := match dec_input i with Some _ => true | No
 Theorem prop_C50_of_model : forall i, wf_C50 i = true -> kf_C50 i = 0 -> prop_C50 i (run_C50 i) = true.
 Proof.
   intros i Hwf _. unfold wf_C50 in Hwf. unfold prop_C50, run_C50. destruct (dec_input i) as [x|]; [|discriminate].
-  unfold enc_resp. destruct (i_route x =? 0) eqn:Ert.
+  unfold enc_resp, handled, loaded_input. destruct (i_route x =? 0) eqn:Ert; cbn [orb].
   - destruct (counters_input x) as [ne fb]. cbv iota beta.
-    rewrite prop_resp_of_model, prop_enc_of_model, prop_sibling_of_model. reflexivity.
-  - reflexivity.
+    destruct ((i_route x =? 3) && rule_file_ok (i_fs x) (i_root x) (i_def x) (i_cmd x)); cbn [vbool VT VF]; cbv iota beta;
+      rewrite prop_resp_of_model, prop_enc_of_model, prop_sibling_of_model; reflexivity.
+  - destruct ((i_route x =? 3) && rule_file_ok (i_fs x) (i_root x) (i_def x) (i_cmd x)) eqn:El.
+    + destruct (counters_input x) as [ne fb]. cbv iota beta. apply andb_true_iff in El. destruct El as [E3 _]. rewrite E3.
+      cbn [vbool VT]. change (1 =? 0) with false. cbn [negb andb].
+      rewrite prop_resp_of_model, prop_enc_of_model, prop_sibling_of_model. reflexivity.
+    + cbv iota beta. change (0 =? 0) with true. cbn [negb]. rewrite andb_false_r. reflexivity.
 Qed.
 
 Lemma C50_example_lemma :
@@ -648,8 +653,8 @@ Proof. vm_compute. split; reflexivity. Qed.
 
 (* the corpus case corpus/C50/basics.case "sibling-gz" (GET /a.txt, Accept-Encoding "gzip, br", lookup on) *)
 Definition corpus_sibling_gz : val :=
-  (VL [(VB [71;69;84]); (VB [47;97;46;116;120;116]); (VB [103;122;105;112;44;32;98;114]); (VL [(VB [116;109;112]); (VB [119;45;109;111;100;50]); (VB [99;53;48]); (VB [116;99;111;114;112;117;115]); (VB [119;119;119])]); (VB []); (VZ 1); (VL [(VL [(VL [(VB [116;109;112])]); (VZ 0)]); (VL [(VL [(VB [116;109;112]); (VB [119;45;109;111;100;50])]); (VZ 0)]); (VL [(VL [(VB [116;109;112]); (VB [119;45;109;111;100;50]); (VB [99;53;48])]); (VZ 0)]); (VL [(VL [(VB [116;109;112]); (VB [119;45;109;111;100;50]); (VB [99;53;48]); (VB [116;99;111;114;112;117;115])]); (VZ 0)]); (VL [(VL [(VB [116;109;112]); (VB [119;45;109;111;100;50]); (VB [99;53;48]); (VB [116;99;111;114;112;117;115]); (VB [119;119;119])]); (VZ 0)]); (VL [(VL [(VB [116;109;112]); (VB [119;45;109;111;100;50]); (VB [99;53;48]); (VB [116;99;111;114;112;117;115]); (VB [119;119;119]); (VB [97;46;116;120;116])]); (VB [104;101;108;108;111])]); (VL [(VL [(VB [116;109;112]); (VB [119;45;109;111;100;50]); (VB [99;53;48]); (VB [116;99;111;114;112;117;115]); (VB [119;119;119]); (VB [97;46;116;120;116;46;103;122])]); (VB [71;90;66;89;84;69;83])]); (VL [(VL [(VB [116;109;112]); (VB [119;45;109;111;100;50]); (VB [99;53;48]); (VB [116;99;111;114;112;117;115]); (VB [119;119;119]); (VB [115;117;98])]); (VZ 0)]); (VL [(VL [(VB [116;109;112]); (VB [119;45;109;111;100;50]); (VB [99;53;48]); (VB [116;99;111;114;112;117;115]); (VB [119;119;119]); (VB [115;117;98]); (VB [98;46;116;120;116;46;98;114])]); (VB [66;82;66;89;84;69;83])]); (VL [(VL [(VB [116;109;112]); (VB [119;45;109;111;100;50]); (VB [99;53;48]); (VB [116;99;111;114;112;117;115]); (VB [119;119;119]); (VB [115;117;98]); (VB [98;46;116;120;116])]); (VB [98;101;101])]); (VL [(VL [(VB [116;109;112]); (VB [119;45;109;111;100;50]); (VB [99;53;48]); (VB [116;99;111;114;112;117;115]); (VB [115;101;99;114;101;116;46;116;120;116])]); (VB [83;69;78;84;73;78;69;76])]); (VL [(VL [(VB [116;109;112]); (VB [119;45;109;111;100;50]); (VB [99;53;48]); (VB [116;99;111;114;112;117;115]); (VB [115;101;99;114;101;116;46;116;120;116;46;103;122])]); (VB [83;69;78;84;73;78;69;76;71;90])])]); (VZ 0)]).
+  (VL [(VB [71;69;84]); (VB [47;97;46;116;120;116]); (VB [103;122;105;112;44;32;98;114]); (VL [(VB [116;109;112]); (VB [119;45;109;111;100;50]); (VB [99;53;48]); (VB [116;99;111;114;112;117;115]); (VB [119;119;119])]); (VB []); (VZ 1); (VL [(VL [(VL [(VB [116;109;112])]); (VZ 0)]); (VL [(VL [(VB [116;109;112]); (VB [119;45;109;111;100;50])]); (VZ 0)]); (VL [(VL [(VB [116;109;112]); (VB [119;45;109;111;100;50]); (VB [99;53;48])]); (VZ 0)]); (VL [(VL [(VB [116;109;112]); (VB [119;45;109;111;100;50]); (VB [99;53;48]); (VB [116;99;111;114;112;117;115])]); (VZ 0)]); (VL [(VL [(VB [116;109;112]); (VB [119;45;109;111;100;50]); (VB [99;53;48]); (VB [116;99;111;114;112;117;115]); (VB [119;119;119])]); (VZ 0)]); (VL [(VL [(VB [116;109;112]); (VB [119;45;109;111;100;50]); (VB [99;53;48]); (VB [116;99;111;114;112;117;115]); (VB [119;119;119]); (VB [97;46;116;120;116])]); (VB [104;101;108;108;111])]); (VL [(VL [(VB [116;109;112]); (VB [119;45;109;111;100;50]); (VB [99;53;48]); (VB [116;99;111;114;112;117;115]); (VB [119;119;119]); (VB [97;46;116;120;116;46;103;122])]); (VB [71;90;66;89;84;69;83])]); (VL [(VL [(VB [116;109;112]); (VB [119;45;109;111;100;50]); (VB [99;53;48]); (VB [116;99;111;114;112;117;115]); (VB [119;119;119]); (VB [115;117;98])]); (VZ 0)]); (VL [(VL [(VB [116;109;112]); (VB [119;45;109;111;100;50]); (VB [99;53;48]); (VB [116;99;111;114;112;117;115]); (VB [119;119;119]); (VB [115;117;98]); (VB [98;46;116;120;116;46;98;114])]); (VB [66;82;66;89;84;69;83])]); (VL [(VL [(VB [116;109;112]); (VB [119;45;109;111;100;50]); (VB [99;53;48]); (VB [116;99;111;114;112;117;115]); (VB [119;119;119]); (VB [115;117;98]); (VB [98;46;116;120;116])]); (VB [98;101;101])]); (VL [(VL [(VB [116;109;112]); (VB [119;45;109;111;100;50]); (VB [99;53;48]); (VB [116;99;111;114;112;117;115]); (VB [115;101;99;114;101;116;46;116;120;116])]); (VB [83;69;78;84;73;78;69;76])]); (VL [(VL [(VB [116;109;112]); (VB [119;45;109;111;100;50]); (VB [99;53;48]); (VB [116;99;111;114;112;117;115]); (VB [115;101;99;114;101;116;46;116;120;116;46;103;122])]); (VB [83;69;78;84;73;78;69;76;71;90])])]); (VZ 0); (VB [])]).
 Lemma C50_wf_example_lemma :
   wf_C50 corpus_sibling_gz = true /\
-  run_C50 corpus_sibling_gz = VL [VZ 200; VB [71;90;66;89;84;69;83]; VB [55]; VB GZIP; VL [VZ 0; VZ 0; VZ 0]].
+  run_C50 corpus_sibling_gz = VL [VZ 200; VB [71;90;66;89;84;69;83]; VB [55]; VB GZIP; VL [VZ 0; VZ 0; VZ 0; VZ 0]].
 Proof. vm_compute. split; reflexivity. Qed.
